@@ -37,6 +37,22 @@ P = {
          "bounded exhaustive enumeration of serialisations (layout, key order, padding to sizes around buffer boundaries)",
          "Three base configurations x compact/pretty/tab x newline variants x whitespace padding to 9 sizes at 4 positions x key permutations: every serialisation must be accepted and load to the same configuration value.",
          "Values outside the three bases are not explored.", "4/C18"),
+ "C04": (True, "px", "model_checking",
+         "stateless depth-first search over child-completion schedules of real `monorail run` processes with controlled children",
+         "Every child blocks in a controlled helper until the checker releases it; for 12 dependency shapes x selection modes x command lists the explorer enumerates every release order (deviation-bounded for multi-command runs) plus eager releases, each a complete real run; at every arrival all dependencies in the run and all executables of earlier commands must have exited. Reports states (released-set x enabled-set), transitions (releases), executions.",
+         "tokio worker interleavings between releases are free-running; driver expectations are used for pacing only.", "4/C04"),
+ "C05": (True, "px", "model_checking",
+         "bounded exhaustive enumeration of selections x plans on the real CLI with traced children",
+         "Shapes x command-definition patterns x command lists x selection modes (all / every changed subset after a checkpoint / -t S / -t S --deps): the result document must contain exactly commands x selected targets once each, groups must equal `analyze --target-groups` taken immediately before, and traced executable starts must match (at most once; exactly once iff defined and nothing failed earlier; never if undefined).",
+         "Repository-state dimension (every history) is covered by the repository BFS of C02/C07/C19, not here.", "4/C05"),
+ "C06": (True, "px", "model_checking",
+         "schedule search over failure positions x completion orders, plus ordering-constraint enumeration at guarded points",
+         "Part A: every single fault (exit codes, missing x bit, undefined with/without the flag) at every position and pairs of faults, under every release order of the affected groups; part B: all-success runs under every feasible ordering constraint between compressor-thread exit and shutdown sends (held at cfg-guarded points). Oracle: failed flag, exit status, later groups/commands neither started nor reported other than skipped, status truthfulness.",
+         "Cancelled siblings in the failing group are left open, as the statement does.", "4/C06"),
+ "C16": (True, "px", "exploration",
+         "rendezvous schedule imposed on real runs for every group size x plan position",
+         "For group sizes 2..48 (quick: 9 sizes) x 4 positions x 1-2 commands the controller releases nobody until the whole group has arrived - exactly the adversarial schedule of the statement; every member must arrive and the run must then finish with all-success.",
+         "Run failures unrelated to concurrency are attributed to C06 and counted as blocked.", "4/C16"),
 }
 
 TODO_REASON = "check not built yet in this round (design in DESIGN.md section 4); will be claimed once its explorer exists"
